@@ -189,6 +189,86 @@ theorem run_blade (ops : List Op) (g : Geonum F) (ha : g.angle.Inv) :
     simp only [List.foldl_cons, List.map_cons, List.sum_cons]
     refine ⟨by rw [ihb, hb]; omega, ihi, by rw [ihr, hr], by rw [ihm, hm]⟩
 
+/-- the mixed alphabet of the property: the seven blade steps, and addition / subtraction of an arbitrary angle
+    (`*` and `rotate` are spellings of addition, `/` of subtraction: `C03.spellings`, `C04.spellings`) -/
+inductive MOp (F : Type) | step (o : Op) | add (c : Angle F) | sub (c : Angle F)
+
+def mstep (g : Geonum F) : MOp F → Geonum F
+  | .step o => step g o
+  | .add c => ⟨g.mag, g.angle.geometricAdd c⟩
+  | .sub c => ⟨g.mag, g.angle.geometricSub c⟩
+
+/-- operands of the mixed history are canonical angles -/
+def MOp.Ok : MOp F → Prop
+  | .step _ => True | .add c => c.Inv | .sub c => c.Inv
+
+/-- the per-operation rule: which blade contributions the property allows one operation to make.  A step adds its
+    fixed count; an addition adds the operand's count plus at most one carry from the remainders; a subtraction
+    removes the operand's count, with at most one borrow and at most one carry of the final normalisation -/
+def MOp.Allowed : MOp F → ℤ → Prop
+  | .step o, k => k = o.delta
+  | .add c, k => k = c.blade ∨ k = c.blade + 1
+  | .sub c, k => k = -(c.blade : ℤ) - 1 ∨ k = -(c.blade : ℤ) ∨ k = -(c.blade : ℤ) + 1
+
+def MOp.isSub : MOp F → Bool | .sub _ => true | _ => false
+
+/-- one mixed step obeys its rule: the new count is the old one plus an allowed contribution — exactly when the
+    operation is not a subtraction, and otherwise congruent to it modulo a full turn and never below it (a subtraction
+    that would go negative is answered forward-only, by whole turns) -/
+theorem mstep_spec {g : Geonum F} (ha : g.angle.Inv) (o : MOp F) (ho : o.Ok) :
+    (mstep g o).angle.Inv ∧ (mstep g o).mag = g.mag ∧
+    ∃ k : ℤ, o.Allowed k ∧ ((mstep g o).angle.blade : ℤ) % 4 = ((g.angle.blade : ℤ) + k) % 4 ∧
+      (g.angle.blade : ℤ) + k ≤ ((mstep g o).angle.blade : ℤ) ∧
+      (o.isSub = false → ((mstep g o).angle.blade : ℤ) = (g.angle.blade : ℤ) + k) := by
+  cases o with
+  | step o =>
+    obtain ⟨hb, hi, _, hm⟩ := step_spec ha o
+    have hb' : ((mstep g (.step o)).angle.blade : ℤ) = (g.angle.blade : ℤ) + (o.delta : ℤ) := by
+      show (((step g o).angle.blade : ℕ) : ℤ) = _
+      rw [hb]; push_cast; rfl
+    exact ⟨hi, hm, (o.delta : ℤ), rfl, by rw [hb'], by rw [hb'], fun _ => hb'⟩
+  | add c =>
+    obtain ⟨hi, hb, _⟩ := geometricAdd_spec ha ho
+    refine ⟨hi, rfl, ?_⟩
+    rcases hb with hb | hb
+    · exact ⟨c.blade, Or.inl rfl, by simp only [mstep, hb]; push_cast; rfl, by simp only [mstep, hb]; push_cast; exact le_refl _,
+        fun _ => by simp only [mstep, hb]; push_cast; rfl⟩
+    · exact ⟨c.blade + 1, Or.inr rfl, by simp only [mstep, hb]; push_cast; rfl, by simp only [mstep, hb]; push_cast; exact le_refl _,
+        fun _ => by simp only [mstep, hb]; push_cast; rfl⟩
+  | sub c =>
+    obtain ⟨hi, s, cy, hs, hc, hb, _⟩ := geometricSub_spec ha ho
+    refine ⟨hi, rfl, -(c.blade : ℤ) + s + cy, ?_, ?_, ?_, fun h => by simp [MOp.isSub] at h⟩
+    · rcases hs with rfl | rfl <;> rcases hc with rfl | rfl <;> simp only [MOp.Allowed] <;> omega
+    · have hm := wrap4_mod ((g.angle.blade : ℤ) - (c.blade : ℤ) + s)
+      simp only [mstep, hb]; push_cast; omega
+    · have hg := wrap4_ge ((g.angle.blade : ℤ) - (c.blade : ℤ) + s)
+      simp only [mstep, hb]; push_cast; omega
+
+/-- (S) **mixed-history theorem**: over any sequence, of any length, of blade steps mixed with additions and
+    subtractions (hence products and quotients) of canonical angles, every intermediate angle is canonical, the
+    magnitude keeps its bits, and there is one allowed contribution per operation such that the accumulated blade
+    count is congruent modulo a full turn to the start count plus their sum and never below it — and *equal* to it
+    when the sequence contains no subtraction.  So the count is the one predicted by summing the per-operation
+    rules; the only freedom is the carry/borrow bit each addition/subtraction is allowed -/
+theorem run_mixed (ops : List (MOp F)) (g : Geonum F) (ha : g.angle.Inv) (hops : ∀ o ∈ ops, o.Ok) :
+    (ops.foldl mstep g).angle.Inv ∧ (ops.foldl mstep g).mag = g.mag ∧
+    ∃ ks : List ℤ, List.Forall₂ MOp.Allowed ops ks ∧
+      ((ops.foldl mstep g).angle.blade : ℤ) % 4 = ((g.angle.blade : ℤ) + ks.sum) % 4 ∧
+      (g.angle.blade : ℤ) + ks.sum ≤ ((ops.foldl mstep g).angle.blade : ℤ) ∧
+      ((∀ o ∈ ops, o.isSub = false) → ((ops.foldl mstep g).angle.blade : ℤ) = (g.angle.blade : ℤ) + ks.sum) := by
+  induction ops generalizing g with
+  | nil => exact ⟨ha, rfl, [], List.Forall₂.nil, by simp, by simp, fun _ => by simp⟩
+  | cons o os ih =>
+    obtain ⟨hi, hm, k, hk, hmod, hge, heq⟩ := mstep_spec ha o (hops o (List.mem_cons_self))
+    obtain ⟨ihi, ihm, ks, hks, ihmod, ihge, iheq⟩ := ih (mstep g o) hi (fun o' ho' => hops o' (List.mem_cons_of_mem _ ho'))
+    refine ⟨ihi, by simp only [List.foldl_cons]; rw [ihm, hm], k :: ks, List.Forall₂.cons hk hks, ?_, ?_, fun hns => ?_⟩
+    · simp only [List.foldl_cons, List.sum_cons]; omega
+    · simp only [List.foldl_cons, List.sum_cons]; omega
+    · simp only [List.foldl_cons, List.sum_cons]
+      have h1 := heq (hns o (List.mem_cons_self))
+      have h2 := iheq (fun o' ho' => hns o' (List.mem_cons_of_mem _ ho'))
+      omega
+
 /-- (S) four derivatives, two duals, or derivative-then-integral return to the same grade and remainder with exactly
     four more blades -/
 theorem four_cycle {g : Geonum F} (ha : g.angle.Inv) :
@@ -210,5 +290,10 @@ end S
 
 /-! non-vacuity -/
 example {F : Type} [FloatSpec F] : (⟨one, ⟨zero, 9⟩⟩ : Geonum F).angle.Inv := inv_zero 9
+example {F : Type} [FloatSpec F] : ∀ o ∈ ([.step .dual, .add ⟨zero, 5⟩, .sub ⟨zero, 11⟩] : List (MOp F)), o.Ok := by
+  intro o ho; simp at ho; rcases ho with rfl | rfl | rfl
+  · trivial
+  · exact inv_zero 5
+  · exact inv_zero 11
 
 end GeonumModel.C07
